@@ -25,18 +25,19 @@ import (
 )
 
 type spec struct {
-	server  string // direct none socks5 ss2022
-	batch   string // no sendmmsg
-	targets string // ip domain mixed
-	n       int    // sessions
-	per     int    // datagrams per session
-	garbage bool
-	rebind  bool // session 0 changes its source port before its last datagram
-	sameIP  bool // all clients share one IP address and differ only in the source port
+	server   string // direct none socks5 ss2022
+	batch    string // no sendmmsg
+	targets  string // ip domain mixed
+	n        int    // sessions
+	per      int    // datagrams per session
+	garbage  bool
+	rebind   bool // session 0 changes its source port before its last datagram
+	sameIP   bool // all clients share one IP address and differ only in the source port
+	oversize bool // each reply is preceded by a datagram the downlink must skip (too large for the client)
 }
 
 func (s spec) String() string {
-	return fmt.Sprintf("server=%s;batch=%s;targets=%s;n=%d;per=%d;garbage=%v;rebind=%v;sameip=%v", s.server, s.batch, s.targets, s.n, s.per, s.garbage, s.rebind, s.sameIP)
+	return fmt.Sprintf("server=%s;batch=%s;targets=%s;n=%d;per=%d;garbage=%v;rebind=%v;sameip=%v;oversize=%v", s.server, s.batch, s.targets, s.n, s.per, s.garbage, s.rebind, s.sameIP, s.oversize)
 }
 
 func parse(p string) spec {
@@ -60,6 +61,8 @@ func parse(p string) spec {
 			s.rebind = v == "true"
 		case "sameip":
 			s.sameIP = v == "true"
+		case "oversize":
+			s.oversize = v == "true"
 		}
 	}
 	return s
@@ -101,6 +104,7 @@ func scenario(param string) vsched.Scenario {
 			}
 			for i := 0; i < nT; i++ {
 				t := env.NewTarget(1 + i)
+				t.OversizeFirst = sp.oversize
 				targets = append(targets, t)
 				vudp.Hosts[fmt.Sprintf("t%d.test", i)] = []netip.Addr{t.Addr.Addr()}
 			}
@@ -306,24 +310,26 @@ func family(c *harness.Check) []string {
 				tk = []string{"ip"}
 			}
 			for _, t := range tk {
-				out = append(out, spec{sv, b, t, 2, 1, false, false, false}.String())
+				out = append(out, spec{sv, b, t, 2, 1, false, false, false, false}.String())
 				if c.Thorough() || t == "domain" {
-					out = append(out, spec{sv, b, t, 2, 2, false, false, false}.String())
-					out = append(out, spec{sv, b, t, 3, 1, false, false, false}.String())
+					out = append(out, spec{sv, b, t, 2, 2, false, false, false, false}.String())
+					out = append(out, spec{sv, b, t, 3, 1, false, false, false, false}.String())
 				}
 			}
 			if sv != "direct" {
 				// a tunnel server has no framing: every datagram is a valid payload for the fixed target
-				out = append(out, spec{sv, b, "ip", 1, 2, true, false, false}.String())
+				out = append(out, spec{sv, b, "ip", 1, 2, true, false, false, false}.String())
+				// a datagram the downlink must skip arrives right before each genuine reply (same receive batch)
+				out = append(out, spec{sv, b, "ip", 1, 2, false, false, false, true}.String())
 				// a resolvable domain first, then datagrams to a name whose lookup fails
-				out = append(out, spec{sv, b, "domainfail", 1, 3, false, false, false}.String())
-				out = append(out, spec{sv, b, "domainfail", 2, 2, false, false, false}.String())
+				out = append(out, spec{sv, b, "domainfail", 1, 3, false, false, false, false}.String())
+				out = append(out, spec{sv, b, "domainfail", 2, 2, false, false, false, false}.String())
 				// two clients behind one IP address (a NAT): sessions must be told apart by port
-				out = append(out, spec{sv, b, "ip", 2, 2, false, false, true}.String())
+				out = append(out, spec{sv, b, "ip", 2, 2, false, false, true, false}.String())
 			}
 			if sv == "ss2022" {
-				out = append(out, spec{sv, b, "ip", 1, 2, false, true, false}.String())
-				out = append(out, spec{sv, b, "mixed", 2, 2, false, true, false}.String())
+				out = append(out, spec{sv, b, "ip", 1, 2, false, true, false, false}.String())
+				out = append(out, spec{sv, b, "mixed", 2, 2, false, true, false, false}.String())
 			}
 		}
 	}
